@@ -42,6 +42,7 @@ type Program struct {
 	ifaceContracts map[string]*Contract
 	boxed          map[*Term]boxedVal // interface value -> the value it boxes
 	constGlobals   map[*ssa.Global]*Term
+	externGhost    map[string]bool        // ghost fields named in the assumed contracts of library functions (not assignable by ghostset)
 	ghostZero      map[string][][2]string // type -> (ghost field, initial value) of a freshly allocated object
 	heapVars       map[*Term]heapVarInfo
 	heapTypes      map[string]types.Type
